@@ -7,6 +7,8 @@ import (
 	"go/token"
 	"go/types"
 	"math/big"
+	"os"
+	"path/filepath"
 	"sort"
 	"strings"
 
@@ -171,21 +173,23 @@ func (p *Program) info(fn *ssa.Function) *fnInfo {
 // ---- executor ----
 
 type Exec struct {
-	p       *Program
-	fn      *ssa.Function
-	fc      *FuncContract
-	key     string
-	obs     []*Obligation
-	names   map[string]int
-	paths   int
-	errs    []string
-	params  map[string]Value
-	entry   *State
-	bv      bool
-	maxPath int
+	p        *Program
+	fn       *ssa.Function
+	fc       *FuncContract
+	key      string
+	obs      []*Obligation
+	names    map[string]int
+	paths    int
+	errs     []string
+	params   map[string]Value
+	entry    *State
+	bv       bool
+	maxPath  int
 	locs     []loc
 	locsDone bool
 	smokes   []*smoke
+	nfeas    int
+	pruned   int
 }
 
 // smoke is a vacuity probe: the hypotheses after assuming a contract/invariant
@@ -232,10 +236,51 @@ func (x *Exec) oblige(st *State, kind, site, descr string, props []string, goal 
 	}
 	base := fmt.Sprintf("%s/%s/%s", x.key, kind, site)
 	x.names[base]++
-	name := fmt.Sprintf("%s#%d", base, x.names[base])
-	ob := &Obligation{Name: name, Func: x.key, Kind: kind, Props: props, Pos: site, Descr: descr,
-		Hyps: append([]*Term(nil), st.hyps...), Goal: goal, Tags: x.p.tags}
-	x.obs = append(x.obs, ob)
+	parts := splitGoal(goal)
+	hyps := append([]*Term(nil), st.hyps...)
+	for k, g := range parts {
+		name := fmt.Sprintf("%s#%d", base, x.names[base])
+		if len(parts) > 1 {
+			name = fmt.Sprintf("%s#%d.%d", base, x.names[base], k+1)
+		}
+		ob := &Obligation{Name: name, Func: x.key, Kind: kind, Props: props, Pos: site, Descr: descr,
+			Hyps: hyps, Goal: g, Tags: x.p.tags}
+		x.obs = append(x.obs, ob)
+	}
+}
+
+// splitGoal splits a goal into independently provable conjuncts:
+// A && B  ->  A, B ;  H => (A && B)  ->  H => A, H => B ;  forall x. (A && B)  ->  forall x. A, forall x. B.
+func splitGoal(g *Term) []*Term {
+	switch g.Op {
+	case "and":
+		var out []*Term
+		for _, a := range g.Args {
+			out = append(out, splitGoal(a)...)
+		}
+		return out
+	case "=>":
+		if len(g.Args) == 2 {
+			parts := splitGoal(g.Args[1])
+			if len(parts) > 1 {
+				out := make([]*Term, len(parts))
+				for i, p := range parts {
+					out[i] = Implies(g.Args[0], p)
+				}
+				return out
+			}
+		}
+	case "forall":
+		parts := splitGoal(g.Args[0])
+		if len(parts) > 1 {
+			out := make([]*Term, len(parts))
+			for i, p := range parts {
+				out[i] = Forall(g.Bound, p)
+			}
+			return out
+		}
+	}
+	return []*Term{g}
 }
 
 func (x *Exec) safetyProps() []string {
@@ -542,6 +587,14 @@ func (x *Exec) step(st *State, fr *Frame, ins ssa.Instruction) bool {
 			return x.jump(st, fr, thenB)
 		case c.IsFalse():
 			return x.jump(st, fr, elseB)
+		}
+		if !x.feasible(st, c) {
+			st.assume(Not(c))
+			return x.jump(st, fr, elseB)
+		}
+		if !x.feasible(st, Not(c)) {
+			st.assume(c)
+			return x.jump(st, fr, thenB)
 		}
 		st2 := st.clone()
 		st2.assume(Not(c))
@@ -1293,3 +1346,31 @@ func (x *Exec) bindPhis(st *State, fr *Frame, from, to *ssa.BasicBlock) {
 		}
 	}
 }
+
+// feasible: false only when the solver proves hyps && cond contradictory quickly
+// (pruning an infeasible branch is sound: no execution takes it).
+func (x *Exec) feasible(st *State, cond *Term) bool {
+	if noPrune {
+		return true
+	}
+	var hyps []*Term
+	for _, h := range st.hyps {
+		if !isQuantified(h) {
+			hyps = append(hyps, h)
+		}
+	}
+	hyps = append(hyps, cond)
+	txt := smtFile(hyps, tFalse, "", false, "")
+	x.nfeas++
+	f := filepath.Join(smtDir, fmt.Sprintf("feas_%s_%d.smt2", obFileName(x.key), x.nfeas))
+	_ = os.WriteFile(f, []byte(txt), 0o644)
+	stt, _, _ := runSolverMs(solvers[0], f, 300)
+	os.Remove(f)
+	if stt == "unsat" {
+		x.pruned++
+		return false
+	}
+	return true
+}
+
+var noPrune bool
